@@ -2,6 +2,7 @@ package main
 
 import (
 	"time"
+	"verif.local/verif/simlib/engine"
 )
 
 func schedCoverage(a *schedAgg, wall float64, conc bool) map[string]interface{} {
@@ -56,11 +57,11 @@ func schedCoverage(a *schedAgg, wall float64, conc bool) map[string]interface{} 
 // build (generated and executed in-process for throughput), then cold runs of
 // freshly generated plans on the -race build and on the plain build.
 func checkC12(c *checkCtx) int {
-	hot, coldRace, coldPlain, chunk := 3200, 640, 480, 8
+	hot, coldRace, coldPlain, chunk, firstUse := 3200, 640, 480, 8, 1600
 	soft := "60s"
 	timeout := 6 * time.Minute
 	if c.Tier == "thorough" {
-		hot, coldRace, coldPlain, chunk = 400000, 20000, 16000, 10
+		hot, coldRace, coldPlain, chunk, firstUse = 400000, 20000, 16000, 10, 60000
 		soft = "10m"
 		timeout = 90 * time.Minute
 	}
@@ -71,12 +72,20 @@ func checkC12(c *checkCtx) int {
 	c.runSchedCold("C12", "race", 0, coldRace, chunk, timeout, agg)
 	racePlans := agg.Plans - hotPlans
 	c.runSchedCold("C12", "plain", coldRace, coldPlain, chunk, timeout, agg)
+	// first-use phase: hammer-shaped plans only (every caller makes the same calls
+	// on one shared object), each in a fresh process, so that whatever the calls
+	// do on first use in a process - grow a package-level table, fill a cache -
+	// is done by several callers at once
+	beforeFirst := agg.Plans
+	c.runSchedCold("C12", "plain", engine.FirstUseBase, firstUse, chunk, timeout, agg)
+	firstUsePlans := agg.Plans - beforeFirst
 	wall := time.Since(t1).Seconds()
 	cov := schedCoverage(agg, wall, true)
 	cov["rule"] = "an evaluation is one simulated run: k in 2..4 caller goroutines executing seeded operations (Evaluate, Execute, Expression, CreateEvaluator/CreateFilter) on 1-3 shared evaluators/filters and shared data under one seeded schedule (back-to-back, PCT-style change points per operation, store-window bias, dense first-use, round-robin quantum, lockstep); a run is non-trivial when at least one switch landed while two callers were inside operations on the same shared object; distinct_nontrivial counts distinct (plan, interleaving id) pairs among those, the interleaving id being the hash of every switch event (from, to, sites, op, offset)"
 	cov["runs_on_plain_build_in_process"] = hotPlans
 	cov["runs_on_race_build_cold"] = racePlans
 	cov["runs_on_plain_build_cold"] = agg.Plans - hotPlans - racePlans
+	cov["first_use_runs_each_in_a_fresh_process"] = firstUsePlans
 	cov["fresh_worker_processes_for_cold_runs"] = agg.ColdProcs
 	cov["cold_runs_with_a_process_of_their_own"] = agg.SoloProcs
 	cov["oracles"] = []string{"every concurrent call returns what the sequential reference returns (boolean, error text, Execute result, Expression string, creation outcome)", "no ThreadSanitizer report on the -race build (handoffs are invisible to it, so only the library's own synchronisation counts)", "shared data fingerprints (incl. spare capacity) unchanged across the run", "no deadlock on modelled locks", "cold runs: the concurrent run and the sequential run that follows it fall into the outcome classes recorded by the purely sequential generating process (damage that outlives the objects)"}
